@@ -191,7 +191,34 @@ impl RawTextSafe for ParserNode {
 }
 
 /// every sequence of `len` statements from a pool of stack / register statements inside an 8-byte frame
-pub fn enumerate(len: usize, shape: &str) -> i32 {
+pub fn enumerate(len: usize, shape: &str, only_first: Option<usize>) -> i32 {
+    // The analysis result of every program is a graph of reference-counted nodes that point at each other and is never freed.
+    // For the longer sequences each first statement is therefore handed to a child process (a few at a time), whose memory
+    // goes back to the system when it exits.
+    if len >= 4 && only_first.is_none() {
+        let exe = match std::env::current_exe() { Ok(e) => e, Err(e) => { println!("error: {e}"); return 2; } };
+        let (mut n, pool_len) = (0u64, 19usize);
+        let mut next = 0usize;
+        let mut running: Vec<std::process::Child> = Vec::new();
+        loop {
+            while next < pool_len && running.len() < 12 {
+                match std::process::Command::new(&exe).args(["values-enum", &len.to_string(), shape, &next.to_string()]).stdin(std::process::Stdio::null()).stdout(std::process::Stdio::piped()).spawn() {
+                    Ok(c) => running.push(c), Err(e) => { println!("error: cannot start a worker: {e}"); return 2; } }
+                next += 1;
+            }
+            if running.is_empty() { break; }
+            let c = running.remove(0);
+            let out = match c.wait_with_output() { Ok(o) => o, Err(e) => { println!("error: {e}"); return 2; } };
+            let text = String::from_utf8_lossy(&out.stdout);
+            match out.status.code() {
+                Some(0) => { n += text.lines().find_map(|l| l.strip_prefix("count ")).and_then(|x| x.trim().parse::<u64>().ok()).unwrap_or(0); }
+                Some(1) => { for mut r in running { let _ = r.kill(); } print!("{text}"); return 1; }
+                other => { for mut r in running { let _ = r.kill(); } println!("error: a worker ended with {other:?}: {}", text.chars().take(300).collect::<String>()); return 2; }
+            }
+        }
+        println!("no false claim among {n} programs (shape `{shape}`: all sequences of {len} statements from a pool of {pool_len}) x 6 initial register files");
+        return 0;
+    }
     let pool = ["sw zero, 0(sp)", "sw a0, 0(sp)", "sw t0, 0(sp)", "sw s0, 4(sp)", "sb a1, 0(sp)", "sh a1, 2(sp)", "sb zero, 5(sp)",
         "lw t1, 0(sp)", "lw s0, 4(sp)", "lb t2, 0(sp)", "lhu t2, 4(sp)", "li t0, 7", "mv t0, zero", "addi a0, a0, 1", "mv s0, t1", "mv t0, sp",
         "addi sp, sp, -4", "addi sp, sp, 4", "sub t0, t0, sp"];
@@ -200,6 +227,7 @@ pub fn enumerate(len: usize, shape: &str) -> i32 {
     let total = std::sync::atomic::AtomicU64::new(0);
     std::thread::scope(|sc| {
         for first in 0..pool.len() {
+            if only_first.map_or(false, |f| f != first) { continue; }
             let (found, total, pool) = (&found, &total, &pool);
             sc.spawn(move || {
                 let mut idx = vec![0usize; len.saturating_sub(1)];
@@ -244,6 +272,7 @@ pub fn enumerate(len: usize, shape: &str) -> i32 {
         }
     });
     if let Some(w) = found.into_inner().unwrap() { println!("witness: {w}"); return 1; }
+    if only_first.is_some() { println!("count {}", total.into_inner()); return 0; }
     println!("no false claim among {} programs (shape `{shape}`: all sequences of {len} statements from a pool of {}) x 6 initial register files", total.into_inner(), pool.len());
     0
 }
